@@ -517,6 +517,11 @@ func (s *Scope) evalCall(e ECall) Term {
 			return Select(dom, as[1])
 		case "isnil":
 			a := s.Eval(e.Args[0])
+			if a.GoT != nil {
+				if _, isIface := a.GoT.Underlying().(*types.Interface); isIface && a.Sort != SBool {
+					return Eq(a, x.zero(a.GoT))
+				}
+			}
 			name := "isnil_" + sanitize(string(a.Sort))
 			if a.GoT != nil {
 				if _, ok := a.GoT.Underlying().(*types.Pointer); ok {
